@@ -839,3 +839,22 @@ def gen_scenario_case(rng: Rng, max_steps: int = 30) -> dict:
     bw = [rng.choice([100.0, 100.0, 10.0, 1.0, 0.05, 0.01, gen_bw(rng, True), 40.0]) for _ in range(nbw)]
     return {"scenario": {"file": rng.choice(SCENARIOS), "seed": rng.range(1, 10 ** 6), "bw": bw},
             "ops": [["step", rng.below(10 ** 6) if rng.chance(2, 3) else 0] for _ in range(rng.range(8, max_steps))]}
+
+
+def f9_probe() -> dict:
+    """F-9 (recorded under C03): `Frame.size` is the length of the frame's JSON, which contains the timestamps as text. Not a C18
+    violation once the frame is stamped before the admission test (the model is parametric in the sizes), but it is why sizes are
+    inputs of the model and not predicted: the same frame weighs differently depending on the clock."""
+    from datetime import datetime
+    from primaite.simulator.network.transmission.data_link_layer import EthernetHeader, Frame
+    from primaite.simulator.network.transmission.network_layer import IPPacket
+    from primaite.simulator.network.transmission.transport_layer import UDPHeader
+    f = Frame(ethernet=EthernetHeader(src_mac_addr="aa:bb:cc:dd:ee:ff", dst_mac_addr="11:22:33:44:55:66"),
+              ip=IPPacket(src_ip_address="192.168.0.10", dst_ip_address="192.168.0.20", protocol=_proto("UDP")),
+              udp=UDPHeader(src_port=_port("NTP"), dst_port=_port("NTP")), payload="x")
+    out = {"unstamped": int(f.size)}
+    f.sent_timestamp = datetime(2026, 1, 1, 0, 0, 0, 123456)
+    out["stamped_with_microseconds"] = int(f.size)
+    f.sent_timestamp = datetime(2026, 1, 1, 0, 0, 0, 0)
+    out["stamped_on_a_whole_second"] = int(f.size)
+    return out
